@@ -48,8 +48,22 @@ func authGate(fn *ssa.Function, authName string) (saslOn *ssa.BasicBlock, okEdge
 	// the If that tests the call's result
 	for _, b := range an.Blocks(fn) {
 		_, ci := an.IfCond(b)
-		if ci == nil || !an.IsNilConst(ci.Y) || ci.X != ssa.Value(authCall) {
+		if ci == nil || !an.IsNilConst(ci.Y) {
 			continue
+		}
+		if ci.X != ssa.Value(authCall) {
+			// the result may reach the test through a helper that did not exist at review time
+			through := false
+			if c2, isCall := ci.X.(*ssa.Call); isCall && an.IsNew(c2.Call.StaticCallee()) {
+				for _, o := range an.Origins(ci.X, an.FlowOpts{}) {
+					if o.Val == ssa.Value(authCall) {
+						through = true
+					}
+				}
+			}
+			if !through {
+				continue
+			}
 		}
 		if ci.Op == token.NEQ {
 			failEdge, okEdge = b.Succs[0], b.Succs[1]
@@ -60,13 +74,17 @@ func authGate(fn *ssa.Function, authName string) (saslOn *ssa.BasicBlock, okEdge
 	// the If that tests the configured mechanism (x.SASLMechanism != nil / pool.sasl != nil)
 	for _, b := range an.Blocks(fn) {
 		_, ci := an.IfCond(b)
-		if ci == nil || !an.IsNilConst(ci.Y) || ci.Op != token.NEQ {
+		if ci == nil || !an.IsNilConst(ci.Y) || (ci.Op != token.NEQ && ci.Op != token.EQL) {
 			continue
 		}
 		d := strings.ToLower(argDesc(ci.X))
 		if strings.HasSuffix(d, ".saslmechanism") || strings.HasSuffix(d, ".sasl") {
-			if b.Succs[0] == authCall.Block() || b.Succs[0].Dominates(authCall.Block()) {
-				saslOn = b.Succs[0]
+			on := 0 // successor taken when a mechanism is configured
+			if (ci.Op == token.EQL) != ci.Neg {
+				on = 1
+			}
+			if b.Succs[on] == authCall.Block() || b.Succs[on].Dominates(authCall.Block()) {
+				saslOn = b.Succs[on]
 			}
 		}
 	}
@@ -128,7 +146,7 @@ func c18Dialer(p *load.Program, r *oblig.Report) {
 	}
 	var uses []string
 	okUses := true
-	for _, ref := range *conn.Referrers() {
+	for _, ref := range an.UsesOf(conn) {
 		switch x := ref.(type) {
 		case *ssa.Call:
 			name := an.CalleeName(&x.Call)
@@ -228,7 +246,7 @@ func c18Transport(p *load.Program, r *oblig.Report) {
 	}
 	okUses := true
 	var uses []string
-	for _, ref := range *pc.Referrers() {
+	for _, ref := range an.UsesOf(pc) {
 		switch x := ref.(type) {
 		case *ssa.Call:
 			name := an.CalleeName(&x.Call)
@@ -407,14 +425,18 @@ func c18RawFramed(p *load.Program, r *oblig.Report) {
 	framed := false
 	for _, b := range an.Blocks(fn) {
 		_, ci := an.IfCond(b)
-		if ci == nil || ci.Op != token.EQL {
+		if ci == nil || (ci.Op != token.EQL && ci.Op != token.NEQ) {
 			continue
 		}
 		if v, ok := an.ConstInt(ci.Y); ok && v == 1 && strings.Contains(argDesc(ci.X), "negotiateVersion#0") {
-			// true edge contains writeOperation (framed); false edge writes raw bytes
+			// the version == v1 edge contains writeOperation (framed); the other edge writes raw bytes
+			v1Edge := 0
+			if (ci.Op == token.NEQ) != ci.Neg {
+				v1Edge = 1
+			}
 			hasOp := false
 			for _, blk := range an.Blocks(fn) {
-				if blk == b.Succs[0] || b.Succs[0].Dominates(blk) {
+				if blk == b.Succs[v1Edge] || b.Succs[v1Edge].Dominates(blk) {
 					for _, ins := range blk.Instrs {
 						if call, ok := ins.(*ssa.Call); ok && call.Call.StaticCallee() != nil && an.RefFuncName(call.Call.StaticCallee()) == "writeOperation" {
 							hasOp = true
@@ -437,8 +459,12 @@ func c18RawFramed(p *load.Program, r *oblig.Report) {
 		if !ok || bo.Op != token.EQL {
 			return
 		}
-		v, okV := an.ConstInt(bo.Y)
-		os := an.Origins(bo.X, an.FlowOpts{})
+		x, y := bo.X, bo.Y
+		if _, xc := x.(*ssa.Const); xc {
+			x, y = y, x
+		}
+		v, okV := an.ConstInt(y)
+		os := an.Origins(x, an.FlowOpts{})
 		if okV && v == 0 && len(os) == 1 && len(os[0].Keys) == 1 {
 			if key, ok := an.ConstInt(os[0].Keys[0]); ok && key == 17 {
 				okReq = true
